@@ -125,9 +125,10 @@ def has_symmetric_extension(
     # (2-copy, non-PPT) symmetric extension that is much faster to use than semidefinite
     # programming [CJKLZB14]_.
     if level == 2 and not ppt and dim_x == 2 and dim_y == 2:
+        # Pure product states meet the criterion with equality: compare up to `tol` so that rounding does not decide.
         return np.trace(np.linalg.matrix_power(partial_trace(rho, [0]), 2)) >= np.trace(
             np.linalg.matrix_power(rho, 2)
-        ) - 4 * np.sqrt(max(np.real(np.linalg.det(rho)), 0))
+        ) - 4 * np.sqrt(max(np.real(np.linalg.det(rho)), 0)) - tol
 
     # Otherwise, use semidefinite programming to find a symmetric extension.
     # If the optimal value of the symmetric extension hierarchy is equal to 1,
